@@ -174,7 +174,9 @@ Definition num_piece (dummy : Z) (n : nat) (o : option sens) : list Z :=
 Definition cat_piece (dummy : Z) (n : nat) (o : option sens) : cdz :=
   match o with Some (SCat _ c) => c | _ => make Z.eqb [dummy] [0; n] end.
 
-Definition get_sensor (ps : list part) (name : Z) (allow_repeats : bool) : sres :=
+(* [dc] = the filler per type.  ConcatenatedSensorCache.get with the filler of dummy_sensor_getter: [dc := dummy_code]
+   for the sensor types of C12's model; [dummy_code_u ubits] when the common dtype is an unsigned integer type (below) *)
+Definition get_sensor_w (dc : SensorCache.dtype -> Z) (ps : list part) (name : Z) (allow_repeats : bool) : sres :=
   let xs := map (fun p => find_sens name (p_sens p)) ps in
   let nxs := combine (map nT ps) xs in
   if forallb is_absent xs then RKeyError
@@ -182,7 +184,7 @@ Definition get_sensor (ps : list part) (name : Z) (allow_repeats : bool) : sres 
     if existsb is_num xs then RFail                     (* concatenate_categorical on an ndarray *)
     else match cat_dtype xs with
          | Some dt =>
-             match zcat (map (fun nx => cat_piece (dummy_code dt) (fst nx) (snd nx)) nxs) allow_repeats with
+             match zcat (map (fun nx => cat_piece (dc dt) (fst nx) (snd nx)) nxs) allow_repeats with
              | Some c => RCat c
              | None => RFail
              end
@@ -192,16 +194,25 @@ Definition get_sensor (ps : list part) (name : Z) (allow_repeats : bool) : sres 
     (* common_dtype: float64 as soon as one part has floats, else the integer type; the filler of a plain array
        is an array of the dummy value of that type *)
     let dt := if existsb is_floatnum xs then SensorCache.DFloat else SensorCache.DInt in
-    RNum (concat (map (fun nx => num_piece (dummy_code dt) (fst nx) (snd nx)) nxs)).
+    RNum (concat (map (fun nx => num_piece (dc dt) (fst nx) (snd nx)) nxs)).
+Definition get_sensor (ps : list part) (name : Z) (allow_repeats : bool) : sres :=
+  get_sensor_w dummy_code ps name allow_repeats.
 
-(* Unsigned integer sensors.  [uns] = the common dtype of the parts that have the sensor is an unsigned integer type.
-   When some part lacks the sensor, ConcatenatedSensorCache.get asks dummy_sensor_getter for the dummy value of that
-   dtype, which evaluates np.dtype(dtype).type(-1): NumPy >= 2 refuses to turn -1 into an unsigned type
-   (OverflowError) -- finding C19-F4; with every part having the sensor nothing is filled and nothing fails.
-   [get_sensor_u] is ConcatenatedSensorCache.get; [get_sensor] is its behaviour on all other types. *)
+(* Unsigned integer sensors.  [ubits] = 0: the common dtype of the parts that have the sensor is one of the types of
+   C12's model; [ubits] = b > 0: it is the unsigned integer type of b bits (uint8, uint16, ...).  Since the repair of
+   finding C19-F4 dummy_sensor_getter computes the integer dummy as np.array(-1).astype(dtype)[()]: the documented
+   dummy -1 CAST into the type - -1 itself for a signed type, -1 modulo 2^b (all bits set) for an unsigned one. *)
+Definition int_dummy (ubits : Z) : Z :=
+  if (ubits <=? 0)%Z then dummy_code SensorCache.DInt else (dummy_code SensorCache.DInt mod 2 ^ ubits)%Z.
+Definition dummy_code_u (ubits : Z) (dt : SensorCache.dtype) : Z :=
+  match dt with SensorCache.DInt => int_dummy ubits | _ => dummy_code dt end.
 Definition lacks_some (ps : list part) (name : Z) : bool :=
   let xs := map (fun p => find_sens name (p_sens p)) ps in existsb is_absent xs && negb (forallb is_absent xs).
-Definition get_sensor_u (ps : list part) (name : Z) (allow_repeats uns : bool) : sres :=
+Definition get_sensor_u (ps : list part) (name : Z) (allow_repeats : bool) (ubits : Z) : sres :=
+  get_sensor_w (dummy_code_u ubits) ps name allow_repeats.
+(* BEFORE the repair (np.dtype(dtype).type(-1): OverflowError under NumPy >= 2 for an unsigned type): a sensor of an
+   unsigned type that some part lacks could not be read at all.  Kept for C19_unsigned_sensor_refuted_before_fix. *)
+Definition get_sensor_u_before_fix (ps : list part) (name : Z) (allow_repeats uns : bool) : sres :=
   if uns && lacks_some ps name then RFail else get_sensor ps name allow_repeats.
 
 (* cache[name] with the time selection: every part applies its own slice view of the global mask *)
@@ -240,18 +251,29 @@ Definition spec_running (f : part -> cdz) (ps : list part) : list Z :=
 Definition spec_keep0 (ps : list part) : list bool :=
   map (fun ab => andb (fst ab =? 0)%Z (snd ab =? 0)%Z) (combine (spec_index p_spw ps) (spec_index p_sub ps)).
 
-Definition spec_sensor (ps : list part) (name : Z) : option (list Z) :=
+(* [sd] = the dummy value per type the property names *)
+Definition spec_sensor_w (sd : SensorCache.dtype -> Z) (ps : list part) (name : Z) : option (list Z) :=
   let xs := map (fun p => find_sens name (p_sens p)) ps in
   if forallb is_absent xs then None
   else
     let dummy := if existsb is_cat xs
-                 then match cat_dtype xs with Some dt => dummy_code dt | None => 0%Z end
-                 else dummy_code (if existsb is_floatnum xs then SensorCache.DFloat else SensorCache.DInt) in
+                 then match cat_dtype xs with Some dt => sd dt | None => 0%Z end
+                 else sd (if existsb is_floatnum xs then SensorCache.DFloat else SensorCache.DInt) in
     Some (concat (map (fun nx => match snd nx with
                                  | Some (SNum _ l) => l
                                  | Some (SCat _ c) => zexpand c
                                  | None => repeat dummy (fst nx)
                                  end) (combine (map nT ps) xs))).
+Definition spec_sensor (ps : list part) (name : Z) : option (list Z) := spec_sensor_w dummy_code ps name.
+(* the dummy value of an unsigned integer type of b bits: the documented integer dummy -1 does not exist there; it is
+   the value -1 is stored as, the LARGEST value of the type (what NumPy < 2 produced for np.uint8(-1)) *)
+Definition spec_dummy_u (ubits : Z) (dt : SensorCache.dtype) : Z :=
+  match dt with
+  | SensorCache.DInt => if (ubits <=? 0)%Z then (-1)%Z else (2 ^ ubits - 1)%Z
+  | _ => dummy_code dt
+  end.
+Definition spec_sensor_u (ubits : Z) (ps : list part) (name : Z) : option (list Z) :=
+  spec_sensor_w (spec_dummy_u ubits) ps name.
 
 (* ---------------------------------------------------------------- wire *)
 Definition to_cd (x : sx) : cdz :=
@@ -313,7 +335,7 @@ Definition wire_19 (x : sx) : sx :=
   match x with
   | L [parts; names; keep] =>
       let input := map to_part (to_list parts) in
-      let unss := map (fun n => match n with L [I k; ar; u] => to_bool u | _ => false end) (to_list names) in
+      let unss := map (fun n => match n with L [I k; ar; I u] => u | _ => 0%Z end) (to_list names) in
       let names := map (fun n => match n with L [I k; ar] => (k, to_bool ar) | L [I k; ar; u] => (k, to_bool ar)
                                  | _ => (0%Z, false) end) (to_list names) in
       let keep := to_bools keep in
@@ -328,8 +350,8 @@ Definition wire_19 (x : sx) : sx :=
            of_Zs (spec_plain p_state so); of_Zs (spec_plain p_label so);
            of_Zs (spec_running p_scan so); of_Zs (spec_running p_cscan so);
            of_bools (spec_keep0 so);
-           L (map (fun na => match spec_sensor so (fst na) with
-                             | Some l => L [of_Zs l; of_Zs (mask_sel skeep l)] | None => L [] end) names)] in
+           L (map (fun nu => match spec_sensor_u (snd nu) so (fst (fst nu)) with
+                             | Some l => L [of_Zs l; of_Zs (mask_sel skeep l)] | None => L [] end) (combine names unss))] in
       match concat_open input with
       | CErr e => L [I (err_code e); L []; spec]
       | COk m =>
